@@ -178,8 +178,14 @@ def rule_safety(w):
     ck = w.ck
     obs = {}
     undecided = {"cursor": 0, "data": 0, "raw": 0, "caller": 0}
+    skipped = set()
     for fn in w.fns:
         if not re.search(SCOPE_RE, fn.file) or not re.search(CLASS_RE, fn.cls or ""):
+            continue
+        if w.norm.inlined.get(fn.full, 0) > 0:
+            # a helper whose body was read in place of its calls is judged there, with the facts of the call site (the kinds of its parameters
+            # come from the arguments); stand-alone nothing is known about them
+            skipped.add(short_noinst(fn))
             continue
         fk = w.fk(fn)
         name = short_noinst(fn)
@@ -243,6 +249,8 @@ def rule_safety(w):
         bad = [x for x in lst if not x[0]]
         pick = bad[0] if bad else lst[0]
         ck.ob("E2.safety", key, not bad, pick[1], pick[2], pick[3])
+    if skipped:
+        ck.note("E2.safety: helpers judged at their call sites (inlined), not stand-alone: %s" % ", ".join(sorted(skipped)))
     ck.note("E2.safety: %d subscripts through cursors (decided by E3), %d data-dependent indices (counters / values: not decided), %d subscripts of raw pointers "
             "without extent, %d caller-provided indices (preconditions)" % (undecided["cursor"], undecided["data"], undecided["raw"], undecided["caller"]))
 
@@ -265,7 +273,7 @@ def rule_pairs(w):
     ck = w.ck
     obs = {}
     for fn in w.fns:
-        if not re.search(SCOPE_RE, fn.file) or not re.search(CLASS_RE, fn.cls or ""):
+        if not re.search(SCOPE_RE, fn.file) or not re.search(CLASS_RE, fn.cls or "") or w.norm.inlined.get(fn.full, 0) > 0:
             continue
         fk = w.fk(fn)
         name = short_noinst(fn)
@@ -338,6 +346,9 @@ def rule_unsigned_pred(w):
         ck.ob("E2.unsigned-pred", key, not bad, pick[1], pick[2], pick[3])
 
 
+_ANY_SIZE = [False]      # set while E7.size-precond runs: any size atom (Dom(graph), ...) counts as an extent, not only container lengths
+
+
 def _extent_atom(fk, fn, lhs):
     """Lin repr if lhs is the length of a container / an extent parameter (also through a single-assignment local: `const Index n(this->size())`)"""
     lhs = strip(lhs)
@@ -356,6 +367,10 @@ def _extent_atom(fk, fn, lhs):
         return repr(_raw_size(fk, lhs))
     if lhs.get("k") == "Ref" and lhs.get("dk") == "param" and re.match(r"num_|size|count|n_", lhs["n"]):
         return lhs["n"]
+    if _ANY_SIZE[0] and lhs.get("k") in ("MCall", "Member", "Ref"):
+        z = fk.size(lhs)
+        if z is not None and fk.norm(z).single_atom():
+            return fk.norm(z).single_atom()
     return None
 
 
@@ -2540,6 +2555,211 @@ def rule_perm_fill(w):
 
 
 # -------------------------------------------------------------------------------------------------
+# move operations: every member is taken from the source before the source is reset; ctor and assignment transfer the same members
+# -------------------------------------------------------------------------------------------------
+
+def _other_fields(n, od):
+    """names of the fields of the moved-from parameter (decl id od) read below n"""
+    out = []
+    for x in walk(n):
+        if x.get("k") == "Member" and x.get("b") is not None:
+            b = strip(x["b"])
+            if b is not None and b.get("k") == "Ref" and b.get("d") == od:
+                out.append(x["n"])
+    return out
+
+
+def rule_moves(w):
+    ck = w.ck
+    per_class = {}
+    for fn in w.fns:
+        if not re.search(SCOPE_RE, fn.file) or fn.body is None:
+            continue
+        cname = (fn.cls or "").rsplit("::", 1)[-1]
+        op = [p for p in fn.params if (fn.type(p["t"]) or "").rstrip().endswith("&&") and re.search(r"\b%s\b" % re.escape(cname), fn.type(p["t"]) or "")]
+        if not cname or len(fn.params) != 1 or not op or not (fn.d.get("ctor") or fn.name == "operator="):
+            continue
+        od = op[0]["d"]
+        kind = "ctor" if fn.d.get("ctor") else "assign"
+        key = "%s::%s(%s&&)" % (cname, fn.name, cname)
+        # statements in execution order: constructor initialisers, then the body (the leading self-move check `if(this == &other) return *this;` is skipped)
+        units = []
+        for ini in fn.d.get("inits") or []:
+            nm = ini.get("member") or ini.get("n") or ini.get("field")
+            if nm and ini.get("init") is not None:
+                units.append(("init", nm, ini["init"], ini.get("init")))
+        unclear = []
+        for st in fn.body.get("s", []):
+            s0 = strip(st)
+            if s0.get("k") == "If" and s0.get("else") is None and norm_c12._leaves_function(s0.get("then")) and not _other_fields(s0.get("then"), od) \
+                    and any(x.get("k") == "This" for x in walk(s0.get("c"))):
+                continue
+            if s0.get("k") in ("If", "For", "While", "Do", "ForRange", "Switch", "Try") and _other_fields(s0, od):
+                unclear.append("members of the source are accessed under control flow (line %s)" % s0.get("l"))
+                continue
+            units.append(("stmt", None, s0, s0))
+        reset_at, transfers, problems = {}, {}, []
+        for t, (uk, nm, node, _) in enumerate(units):
+            reads, writes, moved = [], [], []
+            if uk == "init":
+                reads = _other_fields(node, od)
+                tgt = [nm]
+            else:
+                tgt = []
+                # assignment chains / compound statements: collect (target, source) pairs
+                for x in walk(node):
+                    lhs = rhs = None
+                    if x.get("k") == "Assign":
+                        lhs, rhs = strip(x["lhs"]), x["rhs"]
+                    elif x.get("k") == "OpCall" and x.get("op") == "=" and len(x.get("a", [])) == 2:
+                        lhs, rhs = strip(x["a"][0]), x["a"][1]
+                    elif x.get("k") == "MCall" and x.get("n") in ("clear", "reset", "swap", "shrink_to_fit", "resize", "assign") and x.get("obj") is not None:
+                        o = strip(x["obj"])
+                        if o.get("k") == "Member" and o.get("b") is not None and strip(o["b"]).get("k") == "Ref" and strip(o["b"]).get("d") == od:
+                            writes.append(o["n"])
+                        continue
+                    if lhs is None:
+                        continue
+                    if lhs.get("k") == "Member" and lhs.get("b") is not None and strip(lhs["b"]).get("k") == "Ref" and strip(lhs["b"]).get("d") == od:
+                        writes.append(lhs["n"])
+                    elif lhs.get("k") == "Member" and (lhs.get("b") is None or strip(lhs["b"]).get("k") == "This"):
+                        tgt.append(lhs["n"])
+                        # sources of this target: through chained assignments the innermost value
+                        reads += _other_fields(rhs, od)
+                # reads that are not assignment sources (arguments of calls ...)
+                lhs_ids = set()
+                for x in walk(node):
+                    if x.get("k") == "Assign":
+                        lhs_ids |= {id(y) for y in walk(x["lhs"])}
+                    elif x.get("k") == "OpCall" and x.get("op") == "=" and x.get("a"):
+                        lhs_ids |= {id(y) for y in walk(x["a"][0])}
+                    elif x.get("k") == "MCall" and x.get("n") in ("clear", "reset", "swap", "shrink_to_fit", "resize", "assign") and x.get("obj") is not None:
+                        lhs_ids |= {id(y) for y in walk(x["obj"])}
+                for x in walk(node):
+                    if x.get("k") == "Member" and id(x) not in lhs_ids and x.get("b") is not None and strip(x["b"]).get("k") == "Ref" and strip(x["b"]).get("d") == od:
+                        if x["n"] not in reads:
+                            reads.append(x["n"])
+            for x in walk(node):
+                if x.get("k") == "Call" and (x.get("callee") or "") in ("std::move", "std::forward") and x.get("a"):
+                    moved += _other_fields(x["a"][0], od)
+            for f in reads:
+                if f in reset_at:
+                    problems.append("`%s` (line %s) reads other.%s after the source member was %s at line %s: the target receives the reset value, not the source's" % (
+                        render(node)[:60], node.get("l"), f, reset_at[f][1], reset_at[f][0]))
+            for f in tgt:
+                if f in reads:
+                    transfers[f] = t
+            for f in writes:
+                reset_at.setdefault(f, (node.get("l"), "reset"))
+            for f in moved:
+                reset_at.setdefault(f, (node.get("l"), "moved from"))
+        if unclear:
+            ck.incomplete("E7.move-order", "%s: %s" % (key, "; ".join(unclear)))
+        else:
+            ck.ob("E7.move-order", key, not problems, "; ".join(problems) if problems else
+                  "members %s are taken from the source before any of them is reset / moved from" % ", ".join(sorted(transfers)), fn.file, fn.line)
+            per_class.setdefault(cname, {})[kind] = (set(transfers), fn)
+    if not per_class:
+        ck.incomplete("E7.move-order", "no move constructor / move assignment found in kernel/adjacency")
+    for cname, d in sorted(per_class.items()):
+        if set(d) != {"ctor", "assign"}:
+            continue
+        a, b = d["ctor"][0], d["assign"][0]
+        ck.ob("E7.move-siblings", cname, a == b, ("move constructor transfers {%s}, move assignment {%s}: member %s keeps its old value in one of them" % (
+            ", ".join(sorted(a)), ", ".join(sorted(b)), ", ".join(sorted(a ^ b)))) if a != b else
+            "move constructor and move assignment transfer the same members {%s}" % ", ".join(sorted(a)), d["assign"][1].file, d["assign"][1].line)
+
+
+# -------------------------------------------------------------------------------------------------
+# size preconditions of constructors / functions: the argument is positive at every call
+# -------------------------------------------------------------------------------------------------
+
+def rule_size_precond(w):
+    _ANY_SIZE[0] = True
+    try:
+        _rule_size_precond(w)
+    finally:
+        _ANY_SIZE[0] = False
+
+
+def _rule_size_precond(w):
+    ck = w.ck
+    # callees with an unconditional entry assertion `p > 0` / `p >= c` / `p != 0` on a parameter
+    req = {}
+    for fn in w.fns:
+        if not re.search(SCOPE_RE, fn.file) or fn.body is None:
+            continue
+        for st in fn.body.get("s", []):
+            s0 = strip(st)
+            if s0.get("k") == "Decl":
+                continue
+            if not (s0.get("k") == "Call" and (s0.get("callee") or "").endswith("FEAT::assertion") and s0.get("a")):
+                break
+            c = strip(s0["a"][0])
+            if c.get("k") == "Bin" and c.get("op") in (">", ">=", "!="):
+                l, r = strip(c["lhs"]), strip(c["rhs"])
+                if l.get("k") == "Ref" and l.get("dk") == "param" and r.get("k") in ("Int", "Construct", "TempObj", "Cast"):
+                    v = r
+                    while v is not None and v.get("k") in ("Construct", "TempObj") and len(v.get("a", [])) == 1:
+                        v = strip(v["a"][0])
+                    if v is not None and v.get("k") == "Int":
+                        n0 = int(v["v"])
+                        need = n0 + 1 if c["op"] == ">" else (n0 if c["op"] == ">=" else (1 if n0 == 0 else None))
+                        if need and need >= 1:
+                            req.setdefault((fn.qn, tuple(p["n"] for p in fn.params)), {})[l["n"]] = (need, render(c), fn)
+    obs = {}
+    for fn in w.fns:
+        if not re.search(SCOPE_RE, fn.file) or fn.body is None:
+            continue
+        fk = None
+        par = None
+        for n in fn.nodes():
+            if n.get("k") not in ("Construct", "TempObj", "Call", "MCall"):
+                continue
+            pn = n.get("pn") or []
+            r = req.get(((n.get("callee") or ""), tuple(pn)))
+            if not r:
+                continue
+            fk = fk or w.fk(fn)
+            par = par or _parents(fn.body)
+            for pname, (need, ctext, cfn) in r.items():
+                i = pn.index(pname)
+                if i >= len(n.get("a", [])):
+                    continue
+                arg = n["a"][i]
+                key = "%s/%s(%s=%s)" % (short_noinst(fn), short_noinst(cfn), pname, render(strip(arg))[:40])
+                sz = fk.size(arg)
+                if sz is not None:
+                    z = fk.norm(sz)
+                    if z.c >= need and all(v >= 0 for v in z.t.values()):
+                        obs.setdefault(key, []).append((True, "argument %r is at least %d" % (z, need), fn.file, n.get("l")))
+                        continue
+                a0 = strip(arg)
+                if a0.get("k") == "Ref" and a0.get("dk") == "param" and not fk.mut.get(a0.get("d")):
+                    continue          # forwarded parameter: the caller's obligation
+                ext = _extent_atom(fk, fn, a0)
+                if ext is None:
+                    obs.setdefault(key, []).append((None, "argument %s is not a length / size expression" % render(a0)[:50], fn.file, n.get("l")))
+                    continue
+                unclear = []
+                guard = _nonempty_guard(fk, fn, n, par, ext, need, unclear)
+                if guard is None and unclear:
+                    obs.setdefault(key, []).append((None, "the call is dominated by the condition %s on %s which is not classified as a size check" % (render(unclear[0])[:60], ext), fn.file, n.get("l")))
+                    continue
+                obs.setdefault(key, []).append((guard is not None, ("%s requires %s; the argument %s is %s" % (short_noinst(cfn), ctext, render(a0)[:40], "guarded by " + guard)) if guard else
+                                                "%s asserts `%s`, but %s is called with %s = %s without a dominating check that %s >= %d: for the empty object (which the class "
+                                                "constructs and returns) the assertion aborts" % (short_noinst(cfn), ctext, short_noinst(cfn), pname, render(a0)[:40], ext, need), fn.file, n.get("l")))
+    for key, lst in sorted(obs.items()):
+        bad = [x for x in lst if x[0] is False]
+        unk = [x for x in lst if x[0] is None]
+        if unk and not bad:
+            ck.incomplete("E7.size-precond", "%s: %s" % (key, unk[0][1]))
+            continue
+        pick = bad[0] if bad else lst[0]
+        ck.ob("E7.size-precond", key, not bad, pick[1], pick[2], pick[3])
+
+
+# -------------------------------------------------------------------------------------------------
 
 def run(tier):
     ck = Check("C19", tier)
@@ -2594,6 +2814,12 @@ def run(tier):
     ck.rule("E12.serial-layout", "Graph(buffer) reads what Graph::serialize wrote: header slots and payload sections agree symbolically (sizes, order, advance)", 7)
     ck.rule("E2.sort-segment", "sort_indices sorts exactly the adjacency list [P[i],P[i+1]) of every domain node: the sort is reached in every iteration of the loop over [0,Dom) "
             "(only nodes without adjacencies may be skipped; a `break` at an empty list leaves all later lists unsorted)", 1)
+    ck.rule("E7.move-order", "move constructor / move assignment of the kernel/adjacency classes: every member of the target is taken from the source BEFORE that source member "
+            "is reset or moved from (a read after the reset hands the target the reset value: the object is structurally valid but empty / inconsistent)", 6)
+    ck.rule("E7.move-siblings", "move constructor and move assignment of one class transfer the same set of members", 3)
+    ck.rule("E7.size-precond", "every call of a constructor / function of kernel/adjacency whose entry XASSERT requires a positive size parameter passes a provably positive "
+            "argument or is control dependent on a check of that size (the classes construct and return empty objects, so `size()` alone is not positive): "
+            "precondition and use live in different functions", 3)
     w = World(ck, tier)
     rule_safety(w)
     rule_pairs(w)
@@ -2609,6 +2835,8 @@ def run(tier):
     rule_callee_precond(w)
     rule_dyn_compose(w)
     rule_perm_fill(w)
+    rule_moves(w)
+    rule_size_precond(w)
     if w.norm.log:
         ck.note("read through normalisation (lib/norm_c12.py): " + "; ".join("%s: %s" % (k.replace("FEAT::Adjacency::", "")[:70], ", ".join(sorted(set(v)))) for k, v in sorted(w.norm.log.items()))[:1500])
     ck.assume("adjactor interface contract (adjactor.hpp): image_begin/image_end(n) take n < get_num_nodes_domain(), iteration yields indices < get_num_nodes_image(); "
